@@ -143,3 +143,175 @@ def _site_key(f, n):
             if isinstance(v, str) and "Expr::" in v:
                 return v.split("::")[-1]
     return "%s" % f.name
+
+
+# ---------------------------------------------------------------------------------------------
+# update_status as a transition function: evaluated concretely on the nine (current, new) pairs
+
+STATUSES = ("NotModified", "Modified", "Cancelled")
+
+
+class _Unknown(Exception):
+    pass
+
+
+class _Return(Exception):
+    pass
+
+
+def status_table(prog, us):
+    """{(cur, new): (final status, number of telemetry.inc calls)} for OperationTransformVisitor::
+    update_status(status, tag), by evaluating its body on concrete status values.  Raises
+    AnchorMissing when the body contains something the evaluator does not model."""
+    prm = us.rec["params"]
+    new_local = None
+    for p in prm:
+        if "Status" in (p.get("ty") or ""):
+            b = hir.pat_bindings(p["pat"])
+            if b:
+                new_local = b[0]["local"]
+    if new_local is None:
+        raise AnchorMissing("status parameter of update_status")
+    table = {}
+    for cur0 in STATUSES:
+        for new in STATUSES:
+            st = {"cur": cur0, "inc": 0}
+
+            def val(e):
+                e = hir.peel_transparent(e)
+                k = e.get("k")
+                if k == "Path":
+                    cp = (e.get("res") or {}).get("ctor_path") or ""
+                    if cp.split("::")[-1] in STATUSES and "Status" in cp:
+                        return cp.split("::")[-1]
+                    l = hir.local_of(e)
+                    if l and l[0] == new_local:
+                        return new
+                    if l:
+                        b = us.bindings().get(l[0])
+                        if b and b["origin"][0] == "let" and b["origin"][1] is not None and not us.assignments_to(l[0]):
+                            return val(b["origin"][1])
+                if k == "Field" and e["field"] == "status" and (hir.place(e) or "").endswith(".transform_status.status"):
+                    return st["cur"]
+                raise _Unknown(hir.describe(e))
+
+            def boolean(e):
+                e = hir.peel(e)
+                k = e.get("k")
+                if k == "Lit" and isinstance(hir.lit_value(e), bool):
+                    return hir.lit_value(e)
+                if k == "Unary" and e["op"] == "Not":
+                    return not boolean(e["x"])
+                if k == "Binary" and e["op"] in ("And", "Or"):
+                    l = boolean(e["l"])
+                    if e["op"] == "And":
+                        return l and boolean(e["r"])
+                    return l or boolean(e["r"])
+                if k == "Binary" and e["op"] in ("Eq", "Ne"):
+                    return (val(e["l"]) == val(e["r"])) == (e["op"] == "Eq")
+                if hir.is_call(e) and (hir.callee_name(e) or e.get("method")) in ("eq", "ne"):
+                    a = hir.call_args(e)
+                    return (val(a[0]) == val(a[1])) == ((hir.callee_name(e) or e.get("method")) == "eq")
+                raise _Unknown(hir.describe(e))
+
+            def pat_matches(p, v):
+                k = p.get("k")
+                if k in ("Wild",):
+                    return True
+                if k == "Binding":
+                    return pat_matches(p["sub"], v) if "sub" in p else True
+                if k in ("Ref", "Deref", "Box"):
+                    return pat_matches(p["inner"], v)
+                if k == "Or":
+                    return any(pat_matches(q, v) for q in p["pats"])
+                if k == "Tuple":
+                    return all(pat_matches(q, x) for q, x in zip(p["pats"], v))
+                if k in ("Path", "TupleStruct", "Struct"):
+                    pv_ = hir.pat_variant(p)
+                    return isinstance(pv_, str) and pv_.split("::")[-1] == v
+                raise _Unknown("pattern %s" % k)
+
+            def run(e):
+                e = hir.peel(e)
+                k = e.get("k")
+                if k == "BlockExpr":
+                    return run(e["block"])
+                if k == "Block":
+                    for s_ in e["stmts"]:
+                        x = s_.get("init") if s_["k"] == "Let" else s_.get("e")
+                        if s_["k"] == "Let":
+                            continue  # immutable helper bindings are looked through by val()
+                        if x is not None:
+                            run(x)
+                    if "tail" in e:
+                        run(e["tail"])
+                    return
+                if k == "If":
+                    c = hir.peel(e["cond"])
+                    if c.get("k") == "LetCond":
+                        ok_ = pat_matches(c["pat"], scrut(c["init"]))
+                    else:
+                        ok_ = boolean(c)
+                    if ok_:
+                        run(e["then"])
+                    elif "else" in e:
+                        run(e["else"])
+                    return
+                if k == "Match":
+                    v = scrut(e["scrut"])
+                    for a in e["arms"]:
+                        if pat_matches(a["pat"], v) and ("guard" not in a or boolean(a["guard"])):
+                            run(a["body"])
+                            return
+                    return
+                if k == "Ret":
+                    raise _Return()
+                if k == "Assign":
+                    if (hir.place(e["l"]) or "").endswith(".transform_status.status"):
+                        st["cur"] = val(e["r"])
+                        return
+                    raise _Unknown("assignment to %s" % hir.describe(e["l"]))
+                if hir.is_call(e):
+                    nm = hir.callee_name(e) or e.get("method")
+                    if nm == "inc":
+                        st["inc"] += 1
+                        return
+                    if nm in ("debug", "trace", "to_string", "clone"):
+                        return
+                    raise _Unknown("call of %s" % nm)
+                if k in ("Tup",) and not e.get("elems"):
+                    return
+                if k in ("Lit", "Path"):
+                    return
+                raise _Unknown(k)
+
+            def scrut(e):
+                e = hir.peel(e)
+                if e.get("k") == "Tup":
+                    return tuple(val(x) for x in e["elems"])
+                return val(e)
+
+            try:
+                try:
+                    run(us.body)
+                except _Return:
+                    pass
+            except _Unknown as ex:
+                raise AnchorMissing("update_status contains something the status evaluator does not model: %s" % ex)
+            table[(cur0, new)] = (st["cur"], st["inc"])
+    return table
+
+
+def expected_status_table():
+    t = {}
+    for cur in STATUSES:
+        for new in STATUSES:
+            if cur == "Cancelled":
+                t[(cur, new)] = ("Cancelled", 0)
+            elif new == "Modified":
+                t[(cur, new)] = ("Modified", 1)
+            elif new == "Cancelled":
+                t[(cur, new)] = ("Cancelled", 0)
+            else:
+                t[(cur, new)] = (cur, 0)
+    return t
